@@ -35,11 +35,105 @@ func s1Shape10(c *vcore.Ctx) *s1Shape {
 	default:
 		sh.opMix = []string{"execve", "execve", "execve", "open", "reset", "symlink"}
 	}
+	sh.kinds = kindSet("container_exit", "wrong_answer", "unexpected_error", "hang", "hang_after_transport_loss", "success_after_transport_loss",
+		"stray_reply", "spurious_kill", "sync_pid", "misaligned", "child_left_running")
 	c.Logf("shape: nops=%d delays=%v cancels=%v close-faults=%v mix=%v", sh.nOps, sh.delays, sh.cancels, sh.faultClose, sh.opMix)
 	return sh
 }
 
+func kindSet(k ...string) map[string]bool {
+	m := map[string]bool{}
+	for _, x := range k {
+		m[x] = true
+	}
+	return m
+}
+
+// s1Stall classifies a real-time stall of the bubble: some goroutine of the code under test sits
+// in a real blocking system call (e.g. open(2) of a FIFO) or waits for a lock that is never released.
+func s1Stall(prop string) func(c *vcore.Ctx) *vcore.Violation {
+	return func(c *vcore.Ctx) *vcore.Violation {
+		last := ""
+		for _, l := range c.Log {
+			if len(l) > 3 && l[:3] == "op " {
+				last = l
+			}
+		}
+		return vcore.Violate(prop, "hang", "blocked_in_real_call", "no progress for 20s of real time during %q: a goroutine of the environment is blocked in a real system call or on a lock that is never released", last)
+	}
+}
+
+func s1Shape11(c *vcore.Ctx) *s1Shape {
+	src := c.Src
+	sh := &s1Shape{prop: "C11", cancels: true, precancel: true, delays: true}
+	sh.nOps = 1 + src.Int(4, "nops")
+	sh.destroyMid = src.Bool(1, 2, "shape_destroy")
+	sh.faultClose = false
+	if src.Bool(1, 3, "shape_mix") {
+		sh.opMix = []string{"execve", "execve", "open", "ping"}
+	} else {
+		sh.opMix = []string{"execve"}
+	}
+	sh.kinds = kindSet("hang", "hang_after_transport_loss", "cancel_verdict", "destroy_hang", "child_left_running", "child_not_reaped", "wrong_answer", "spurious_kill", "success_after_transport_loss")
+	c.Logf("shape: nops=%d destroy-in-flight=%v mix=%v", sh.nOps, sh.destroyMid, sh.opMix)
+	return sh
+}
+
+func s1Shape12(c *vcore.Ctx) *s1Shape {
+	src := c.Src
+	sh := &s1Shape{prop: "C12", delays: true, precancel: true}
+	sh.nOps = 1 + src.Int(30, "nops")
+	sh.cancels = src.Bool(1, 2, "shape_cancels")
+	sh.faultClose = src.Bool(1, 4, "shape_fault_close")
+	sh.destroyMid = src.Bool(1, 4, "shape_destroy")
+	sh.opMix = []string{"execve", "execve", "execve", "open", "open", "symlink", "delete", "reset", "ping"}
+	sh.kinds = kindSet("fd_leak", "goroutine_leak", "child_left_running", "child_not_reaped")
+	c.Logf("shape: nops=%d cancels=%v close-faults=%v destroy-in-flight=%v", sh.nOps, sh.cancels, sh.faultClose, sh.destroyMid)
+	return sh
+}
+
+func s1Shape14(c *vcore.Ctx) *s1Shape {
+	src := c.Src
+	sh := &s1Shape{prop: "C14", delays: src.Bool(1, 2, "shape_delays"), batchHeavy: true}
+	sh.nOps = 1 + src.Int(8, "nops")
+	sh.faultClose = src.Bool(1, 6, "shape_fault_close")
+	sh.opMix = []string{"open", "open", "open", "symlink", "delete", "ping"}
+	sh.kinds = kindSet("misaligned", "non_regular", "wrong_mode", "not_cloexec", "bad_descriptor", "delete_lied", "unexpected_error", "spurious_item_failure", "hang", "container_exit", "fd_leak")
+	c.Logf("shape: nops=%d delays=%v close-faults=%v", sh.nOps, sh.delays, sh.faultClose)
+	return sh
+}
+
 func init() {
+	register(&vcore.Prop{
+		ID: "C11", Level: "exploration", Worlds: "S1",
+		Rule:        "one run = 1..4 operations (mostly Execve of a program that exits at a simulator-chosen step or never) in one synctest bubble; the context is cancelled, or Destroy is called from another goroutine, at a simulator-chosen event boundary of the call (before the request leaves, while it is queued, during sync, while the program runs, after it exited, while the result is queued). distinct = hash of ordered event kinds; non-trivial = a cancel/Destroy/non-FIFO decision fired",
+		Components:  s1Components,
+		Assumptions: []string{"process deaths are stub events; real kill/wait races of the three runners are world K's"},
+		Quick:       vcore.Budget{Wall: 30 * time.Second, Shards: 16},
+		Thorough:    vcore.Budget{Wall: 15 * time.Minute, Shards: 16},
+		Init:        s1Init, StallLimit: 20 * time.Second, OnStall: s1Stall("C11"),
+		Run: func(c *vcore.Ctx) *vcore.Violation { return s1RunHistory(c, s1Shape11(c)) },
+	})
+	register(&vcore.Prop{
+		ID: "C12", Level: "exploration", Worlds: "S1",
+		Rule:        "one run = a history of 1..30 environment operations (successes, every launch-failure stage, cancellations, transport faults, Destroy in flight) followed by Destroy, in one synctest bubble; descriptors in transit carry unique numbers so that after the run every descriptor either side received must be closed or handed to the caller; every goroutine of the host-side environment must have ended. distinct = hash of ordered event kinds; non-trivial = a fault or non-FIFO decision fired",
+		Components:  s1Components,
+		Assumptions: []string{"process residue of real programs is world K's; S1 counts protocol-level residue exactly"},
+		Quick:       vcore.Budget{Wall: 30 * time.Second, Shards: 16},
+		Thorough:    vcore.Budget{Wall: 15 * time.Minute, Shards: 16},
+		Init:        s1Init, StallLimit: 20 * time.Second, OnStall: func(*vcore.Ctx) *vcore.Violation { return nil },
+		Run: func(c *vcore.Ctx) *vcore.Violation { return s1RunHistory(c, s1Shape12(c)) },
+	})
+	register(&vcore.Prop{
+		ID: "C14", Level: "exploration", Worlds: "S1",
+		Rule:        "one run = 1..8 Open/Symlink/Delete calls with batches of 0..12 items over a scratch tree in which adversarial objects (symlink to file/dir/FIFO/outside, dangling and self links, FIFO, socket, directory, unreadable file) are planted before each call; every returned descriptor is compared by (dev, inode), access mode and close-on-exec with the path requested at its index. distinct = hash of ordered event kinds plus planted kinds; non-trivial = something was planted or a fault/non-FIFO decision fired",
+		Components:  s1Components,
+		Assumptions: []string{"objects are planted by the simulator between calls, not by a concurrently running program"},
+		Quick:       vcore.Budget{Wall: 30 * time.Second, Shards: 16},
+		Thorough:    vcore.Budget{Wall: 15 * time.Minute, Shards: 16},
+		Init:        s1Init, StallLimit: 20 * time.Second, OnStall: s1Stall("C14"),
+		Run: func(c *vcore.Ctx) *vcore.Violation { return s1RunHistory(c, s1Shape14(c)) },
+	})
 	register(&vcore.Prop{
 		ID: "C10", Level: "exploration", Worlds: "S1",
 		Rule:       "one run = one generated history of 1..10 environment operations (+ Ping and a successful Execve as epilogue) with a per-Execve failure stage, executed against both RPC endpoints in one synctest bubble; after every quiescence the simulator picks the next event (deliver head of either queue, child exit, cancel, transport close, clock tick). distinct = hash of the ordered event-kind sequence; non-trivial = at least one fault fired or one non-FIFO scheduling decision was taken",
@@ -51,7 +145,7 @@ func init() {
 		NeedNS:   false,
 		Quick:    vcore.Budget{Wall: 40 * time.Second, Shards: 16},
 		Thorough: vcore.Budget{Wall: 20 * time.Minute, Shards: 16},
-		Init:     s1Init,
-		Run:      func(c *vcore.Ctx) *vcore.Violation { return s1RunHistory(c, s1Shape10(c)) },
+		Init:     s1Init, StallLimit: 20 * time.Second, OnStall: s1Stall("C10"),
+		Run: func(c *vcore.Ctx) *vcore.Violation { return s1RunHistory(c, s1Shape10(c)) },
 	})
 }
